@@ -169,7 +169,7 @@ pub fn facts(sys: &System) -> String {
 }
 
 pub struct Progs {
-    pub defs: HashMap<u64, (u64, bool, usize)>,
+    pub defs: HashMap<u64, (u64, u64, usize)>,
     pub rows: HashMap<u64, Vec<Vec<Act>>>,
 }
 
@@ -182,7 +182,7 @@ impl Progs {
             "PROG" => {
                 let p = t.u64();
                 let cap = t.u64();
-                let rt = t.bool();
+                let rt = t.u64();
                 let nd = t.usize();
                 self.defs.insert(p, (cap, rt, nd));
             }
@@ -197,7 +197,7 @@ impl Progs {
         true
     }
     pub fn make(&self, p: u64) -> ScriptProc {
-        let (cap, rt, nd) = self.defs.get(&p).cloned().unwrap_or((0, false, 0));
+        let (cap, rt, nd) = self.defs.get(&p).cloned().unwrap_or((0, 0, 0));
         ScriptProc::new(cap, self.rows.get(&p).cloned().unwrap_or_default(), rt, nd)
     }
 }
